@@ -2,7 +2,8 @@
   crates/resvg/src/filter/mod.rs `apply_inner`, reduced to its size bookkeeping: which pixmap
   sizes reach which per-pixel kernel.  `region` is recomputed from the filter rectangle (not
   clamped), `source` is the group layer (clamped by `fit_to_rect`).  Kernels that `assert!` equal
-  sizes: composite::arithmetic, displacement_map::apply, lighting::{diffuse,specular}_lighting.
+  sizes: composite::arithmetic, displacement_map::apply, lighting::{diffuse,specular}_lighting;
+  since fix fa8179e their inputs are padded to the region size (`fit_to_region`).
   Also crates/resvg/src/path.rs `render_pattern_pixmap` (tile size).
 -/
 namespace Resvg.Render
@@ -40,8 +41,46 @@ def inSize (src : Sz) (results : List Sz) : FIn → Sz
   | .source => src
   | .ref j => results.getD j src    -- unknown name: falls back to SourceGraphic
 
-/-- one step of `apply_inner`: size of the primitive's result, or the failing `assert!` -/
+/-- one step of `apply_inner`: size of the primitive's result. Since fix fa8179e the inputs of the
+    kernels that assert equal sizes are padded to the region size first (`fit_to_region`), so no
+    assertion can fire; the `Except` is kept so that old and new can be compared -/
 def primSize (region src : Sz) (results : List Sz) : FPrim → Except String Sz
+  | .blend _ _ => .ok region
+  | .dropShadow a => .ok (inSize src results a)
+  | .flood => .ok region
+  | .blur a => .ok (inSize src results a)
+  | .offset a => .ok (inSize src results a)
+  | .composite _ _ _ => .ok region
+  | .merge _ => .ok region
+  | .tile _ => .ok region
+  | .image => .ok region
+  | .componentTransfer a => .ok (inSize src results a)
+  | .colorMatrix a => .ok (inSize src results a)
+  | .convolve a => .ok (inSize src results a)
+  | .morphology a => .ok (inSize src results a)
+  | .displacement _ _ => .ok region
+  | .turbulence => .ok region
+  | .diffuse _ => .ok region
+  | .specular _ => .ok region
+
+/-- the sizes `fit_to_region` hands to a kernel that asserts equal sizes: always the region's -/
+def kernelInputSizes (region src : Sz) (results : List Sz) : FPrim → List Sz
+  | .composite true a b => [inSize src results a, inSize src results b].map fun _ => region
+  | .displacement a b => [inSize src results a, inSize src results b].map fun _ => region
+  | .diffuse a => [inSize src results a].map fun _ => region
+  | .specular a => [inSize src results a].map fun _ => region
+  | _ => []
+
+/-- sizes of all primitive results, in order -/
+def sizeBook (region src : Sz) : List FPrim → List Sz → Except String (List Sz)
+  | [], acc => .ok acc
+  | p :: ps, acc =>
+    match primSize region src acc p with
+    | .error e => .error e
+    | .ok s => sizeBook region src ps (acc ++ [s])
+
+/-- before fix fa8179e — one step of `apply_inner`: size of the primitive's result, or the failing `assert!` -/
+def primSizeOld (region src : Sz) (results : List Sz) : FPrim → Except String Sz
   | .blend _ _ => .ok region
   | .dropShadow a => .ok (inSize src results a)
   | .flood => .ok region
@@ -79,12 +118,12 @@ def primSize (region src : Sz) (results : List Sz) : FPrim → Except String Sz
     if inSize src results a = region then .ok region else .error "crates/resvg/src/filter/lighting.rs:assertion_failed:_src.width_==_dest.width_&&_src.height_==_dest.height"
 
 /-- sizes of all primitive results, in order; `.error` = the `assert!` that fires -/
-def sizeBook (region src : Sz) : List FPrim → List Sz → Except String (List Sz)
+def sizeBookOld (region src : Sz) : List FPrim → List Sz → Except String (List Sz)
   | [], acc => .ok acc
   | p :: ps, acc =>
-    match primSize region src acc p with
+    match primSizeOld region src acc p with
     | .error e => .error e
-    | .ok s => sizeBook region src ps (acc ++ [s])
+    | .ok s => sizeBookOld region src ps (acc ++ [s])
 
 /-- path.rs `render_pattern_pixmap`: tile size `(round(w·sx) as u32, round(h·sy) as u32)`;
     `q` are exact values of the f32 products. `none` = `IntSize::from_wh` / `Pixmap::new` refuse. -/
